@@ -27,6 +27,8 @@ CLAIMED = {
          "must-pass-through over the CFG with boolean flags in the path condition; send/receive pairing by symbolic terms; sibling agreement"),
  'C14': ("Static guard inventory of the reliable-broadcast state machine: per handler the threshold comparisons are normalised to polynomials over n and t and must be n-t, t, t+1, 2t+1, n-t where the protocol prescribes them; each of the six message kinds is recorded under a first-time guard; r-send payloads come only from the claimed sender and malformed tags are rejected before any table access; at every delivering exit the must-facts contain channel-ID equality, the FIFO implication, the advance of the sequence number and the integrity condition of that path; DeliverFrom hands out buffered values only for the current ID. Agreement/totality over all schedules and Byzantine behaviours are not decided (model-checking question).", "§3 C14",
          "guard domination with affine normalisation of thresholds; must-facts at delivering exits; first-time-filter typestate"),
+ 'C19': ("Conformance of the finite parts decided against RFC 4880 tables and formulas typed into the checker: radix-64 alphabet and 256-entry inverse table, CRC-24 constants, line length, armor BEGIN/END strings of encoder and decoder; the body-length encoder and decoder evaluated piecewise over all boundary regions (0..8999, 2^16, 2^24, 2^31, 2^32-1; all 256 first octets incl. partial lengths; old-format types); the iterated-S2K count over all 256 octets; big-endian scalar encoders; the CRC comparison guarding ArmorDecode. Byte-exact conformance of every emitted packet and agreement with GnuPG are not decided.", "§3 C19",
+         "finite tables against the standard; piecewise finite-domain evaluation of extracted loop-free definitions; guard domination"),
 }
 NA = {
  'C01': "algebraic identity over runtime group elements for all masking chains; no clause visible in code shape beyond what C03/C05/C08/C12 claim",
